@@ -102,6 +102,20 @@ theorem order_respects (pairs : List (String × String)) (items out : List Strin
     [a, b].Sublist out :=
   sortLevels_respects pairs a b hp _ _ _ h ha hb
 
+/-- **C10.order (fuel sufficiency).**  The fuel of the mirror (`items.length` rounds) never runs out: the sort
+returns `none` (= `CircularDependencyError` → the batch is rejected) only on a genuine cycle, i.e. a non-empty
+sub-collection of the columns each member of which has a parent inside it.  Together with `order_perm` and
+`order_respects`: for every pair list and every item list the sort either rejects a real cycle or returns a
+permutation that is a linear extension — no fuel caveat. -/
+theorem order_fuel (pairs : List (String × String)) (items : List String) (h : topoSort pairs items = none) :
+    ∃ stuck, stuck ≠ [] ∧ (∀ x ∈ stuck, x ∈ items) ∧ levelOutput pairs stuck = [] :=
+  topoSort_none pairs items h
+
+/-- … and such a stuck sub-collection is never released by any round, whatever else is still to do -/
+theorem order_cycle_never_released (pairs : List (String × String)) (stuck todo : List String)
+    (hs : levelOutput pairs stuck = []) (hsub : ∀ x ∈ stuck, x ∈ todo) : ∀ x ∈ stuck, x ∉ levelOutput pairs todo :=
+  levelOutput_stuck hs hsub
+
 /-- the two theorems instantiated at the model's `reorder` -/
 theorem reorder_order (st st' : State) (hne : st.addColOrdering.isEmpty = false) (h : st.reorder = .ok st') :
     ∃ sorted, topoSort (orderingPairs st) (akeys st.columns) = some sorted ∧ sorted.Perm (akeys st.columns) ∧
@@ -316,6 +330,36 @@ theorem kept_indexes (tn : String) (refl : Bool) (s : Schema) (ops : List BatchO
     · cases hg
 
 /-! ## non-vacuity -/
+
+/-- a table with a named UNIQUE, a named CHECK and a named FK next to its primary key -/
+def w_s3 : Schema :=
+  { C11.w_t0.schema with
+    uniques := [{ kind := .unique, name := some "uq_a", cols := ["a"] }],
+    checks := [{ kind := .check, name := some "ck_a", cols := [], text := "a > 0", mentions := ["a"] }],
+    fks := [{ kind := .fk, name := some "fk_a", cols := ["a"], rtable := "parent", rcols := ["id"] }] }
+
+def w_ops3 : List BatchOp :=
+  [.addColumn { name := "n1", ty := "TEXT", aff := "String", nullable := true, default := none, dval := .null, pk := false } none (some "id") false,
+   .alterColumn "id" (some "ident") none none .keep, .createIndex { name := "ix_n1", cols := ["n1"], unique := false }]
+
+/-- the hypotheses of `kept_constraints` hold for `uq_a` under a batch that adds a column, renames another and
+creates an index … -/
+example : ({ kind := .unique, name := some "uq_a", cols := ["a"] } : Const) ∈ tableConstraints w_s3 ∧
+    (∀ c' ∈ tableConstraints w_s3, c'.name = some "uq_a" → c' = { kind := .unique, name := some "uq_a", cols := ["a"] }) ∧
+    (∀ k ∈ ["a"], k ∈ w_s3.cols.map (·.name) ∧ ∀ o ∈ w_ops3, touches k o = false) ∧
+    (∀ o ∈ w_ops3, mentionsConst "uq_a" o = false) ∧
+    ((State.init "t" true w_s3).applyOps w_ops3).toOption.isSome = true := by decide
+
+/-- … and those of `kept_primary_key` (the primary key column is renamed, not dropped) -/
+example : (tablePk w_s3).kind = .pk ∧ (∀ x ∈ w_s3.uniques ++ w_s3.checks ++ w_s3.fks, x.kind ≠ .pk) ∧
+    (tablePk w_s3).cols ≠ [] ∧
+    (∀ k ∈ (tablePk w_s3).cols, k ∈ w_s3.cols.map (·.name) ∧ ∀ o ∈ w_ops3, touches k o = false) ∧
+    (∀ o ∈ w_ops3, mentionsPk (tablePk w_s3).name o = false) := by decide
+
+/-- the cycle case of `order_fuel` exists: `insert_before` and `insert_after` that contradict each other -/
+example : topoSort [("a", "b"), ("b", "x"), ("x", "a")] ["a", "b", "x"] = none := by decide
+example : topoSort [("a", "b"), ("a", "x"), ("x", "b")] ["a", "b", "x"] = some ["a", "x", "b"] := by decide
+
 
 /-- the hypotheses of `rows` / `rowcount` / `no_tmp` are met by a real recreate (add an indexed column) -/
 example : (C11.run [] none C11.w_plan2 { orig := some C11.w_t0, tmp := none }).2 = none := by decide
